@@ -143,20 +143,22 @@ bool FeatureChecker::isRateDisallowedInSymbolic(const expression_t& e)
         if (clock_symbol.get_type().is(Constants::HYBRID))
             return false;
 
+        if (rate.get_kind() == Constants::UNARY_MINUS && rate.get(0).get_kind() == Constants::CONSTANT)
+            return true;  // a negative constant rate
         if (rate.get_kind() != Constants::CONSTANT)
             return false;
+        if (rate.get_type().is_double())
+            return rate.get_double_value() != 0.0 && rate.get_double_value() != 1.0;
         if (rate.get_value() != 0 && rate.get_value() != 1)
             return true;  // NOLINT(readability-simplify-boolean-expr)
 
         return false;
     }
 
-    if (e.get_kind() == Constants::AND) {
-        for (size_t i = 0; i < e.get_size(); ++i) {
-            if (isRateDisallowedInSymbolic(e.get(i)))
-                return true;
-        }
-        return false;
+    // conjunctions, quantifiers, parentheses ...: look at every sub-expression
+    for (size_t i = 0; i < e.get_size(); ++i) {
+        if (isRateDisallowedInSymbolic(e.get(i)))
+            return true;
     }
     return false;
 }
